@@ -106,14 +106,15 @@ func Verif_C07_ccitt_vs_independent() {
 	verifrt.Assert(verifrt.Equal(out, data), "independent decoder reproduces the rows")
 }
 
-// Verif_C08_ccitt_total: the CCITTFax decoder on arbitrary bytes: it
-// returns, does not panic, and the rows it produces stay within MaxRows.
+// Verif_C08_ccitt_total: the CCITTFax decoder on arbitrary bytes (one byte,
+// thorough: two -- nearly every bit is a branch): it returns, does not panic,
+// and the rows it produces stay within MaxRows.
 func Verif_C08_ccitt_total() {
 	verifrt.TerminationBound(200000)
-	n := verifrt.Len("n", 0, 2+verifrt.Tier())
+	n := verifrt.Len("n", 0, 1+verifrt.Tier())
 	body := verifrt.Bytes("body", n)
-	p := &Params{Columns: []int{8, 64}[verifrt.Choice("columns", 2)], K: []int{-1, 0, 2}[verifrt.Choice("k", 3)], MaxRows: 4}
-	if verifrt.Choice("align", 2) == 1 {
+	p := &Params{Columns: []int{8, 64}[verifrt.Choice("columns", 1+verifrt.Tier())], K: []int{-1, 0, 2}[verifrt.Choice("k", 3)], MaxRows: 4}
+	if verifrt.Tier() > 0 && verifrt.Choice("align", 2) == 1 {
 		p.EncodedByteAlign = true
 	}
 	r, err := NewReader(&verifrt.ChunkReader{Data: body, EOF: io.EOF}, p)
